@@ -95,7 +95,7 @@ Record ttrk := {
   tt_cancel0 : bool;        (* cancel requested before it started *)
   tt_cancel1 : bool;        (* cancel requested while it was started and unfinished *)
   tt_consumed : bool;       (* its result was handed out or discarded *)
-  tt_cleaned : bool         (* clean_task_result was called for it *)
+  tt_cleaned : bool         (* clean_task_result was called while it had no result: the result will be discarded *)
 }.
 Definition ttrk0 (p : nat) (acc : bool) : ttrk :=
   {| tt_pool := p; tt_accepted := acc; tt_started := 0; tt_fin := None; tt_fincount := 0; tt_cancel0 := false;
@@ -164,9 +164,9 @@ Definition pev (t : potr) (e : ev) : potr :=
              po_c01 := po_c01 t; po_c02 := po_c02 t; po_c11 := po_c11 t; po_c12 := po_c12 t; po_c13 := po_c13 t |}
       | BStart _ =>
           (* a task starts at most once, only if it was accepted, never after a cancel that came first
-             (unless its handle was cleaned afterwards, which withdraws the request) *)
+             (cleaning its handle afterwards withdraws the request: see PClean) *)
           let t1 := flag t 1 (tt_accepted k && Nat.eqb (tt_started k) 0) in
-          let t2 := flag t1 13 (negb (tt_cancel0 k) || tt_cleaned k) in
+          let t2 := flag t1 13 (negb (tt_cancel0 k)) in
           sett t2 i {| tt_pool := tt_pool k; tt_accepted := tt_accepted k; tt_started := S (tt_started k); tt_fin := tt_fin k;
                        tt_fincount := tt_fincount k; tt_cancel0 := tt_cancel0 k; tt_cancel1 := tt_cancel1 k;
                        tt_consumed := tt_consumed k; tt_cleaned := tt_cleaned k |}
@@ -259,9 +259,19 @@ Definition postep (npools : nat) (maxes : list Z) (t : potr) (o : pop) (ob : pob
   | PTake p i, OWait r => expect_result t p i npools r WNone
   | PClean _ i, OUnitP =>
       let k := gett t i in
-      sett (unquiet t) i {| tt_pool := tt_pool k; tt_accepted := tt_accepted k; tt_started := tt_started k; tt_fin := tt_fin k;
-                            tt_fincount := tt_fincount k; tt_cancel0 := tt_cancel0 k; tt_cancel1 := tt_cancel1 k;
-                            tt_consumed := tt_consumed k || negb (is_none (tt_fin k)); tt_cleaned := true |}
+      if negb (is_none (tt_fin k)) && negb (tt_consumed k) && negb (tt_cleaned k) then
+        (* the result is there: it is taken and dropped *)
+        sett (unquiet t) i {| tt_pool := tt_pool k; tt_accepted := tt_accepted k; tt_started := tt_started k; tt_fin := tt_fin k;
+                              tt_fincount := tt_fincount k; tt_cancel0 := tt_cancel0 k; tt_cancel1 := tt_cancel1 k;
+                              tt_consumed := true; tt_cleaned := tt_cleaned k |}
+      else
+        (* no result to take: whatever the task produces later is discarded, and a pending
+           cancel-before-start request is withdrawn *)
+        sett (unquiet t) i {| tt_pool := tt_pool k; tt_accepted := tt_accepted k; tt_started := tt_started k; tt_fin := tt_fin k;
+                              tt_fincount := tt_fincount k;
+                              tt_cancel0 := tt_cancel0 k && negb (Nat.eqb (tt_started k) 0);
+                              tt_cancel1 := tt_cancel1 k;
+                              tt_consumed := tt_consumed k; tt_cleaned := true |}
   | PCancel i, OUnitP =>
       let k := gett t i in
       if negb (tt_accepted k) || negb (is_none (tt_fin k)) then t
@@ -270,8 +280,8 @@ Definition postep (npools : nat) (maxes : list Z) (t : potr) (o : pop) (ob : pob
                               tt_fincount := tt_fincount k;
                               tt_cancel0 := tt_cancel0 k || Nat.eqb (tt_started k) 0;
                               tt_cancel1 := tt_cancel1 k || negb (Nat.eqb (tt_started k) 0);
-                              tt_consumed := tt_consumed k; tt_cleaned := false |}
-  | PStop p _, OStop r evs =>
+                              tt_consumed := tt_consumed k; tt_cleaned := tt_cleaned k |}
+  | PStop p dur, OStop r evs =>
       let all_done_before := forallb task_done (po_tasks t) in
       let t0 := unquiet t in
       let k0 := getp t0 p in
@@ -285,8 +295,10 @@ Definition postep (npools : nat) (maxes : list Z) (t : potr) (o : pop) (ob : pob
           let k := getp t2 p in
           setp t2 p {| pt_rank := pt_rank k; pt_stop_called := true; pt_stop_ok := true; pt_quiet := false; pt_alive := 0 |}
       | StopTimeout =>
-          (* with nothing left to do a stop must not wait out its timeout *)
-          flag t1 11 (Nat.ltb 1 npools || negb all_done_before)
+          (* with nothing left to do, no worker legitimately asleep and some time to act in, a stop
+             must not wait out its timeout *)
+          flag t1 11 (Nat.ltb 1 npools || negb all_done_before || (dur <=? 0)
+                      || (0 <? count_true (parked (po_clock t1)) (po_workers t1)))
       | StopDiverged => flag (flag t1 11 false) 1 false
       | _ => flag t1 12 false
       end
